@@ -5,6 +5,8 @@ CONSTANTS
   Vals = {"va", "vb"}
   HistDepth = 40
   MaxIds = 30
+  Ops = {"begin", "foreign", "set", "del", "destroy", "regenerate", "reset", "save", "reget", "getbyid", "storedelete", "freeticks"}
+  Modes = {"middleware", "store"}
 INVARIANT EmitHist
 INVARIANT NeverAdoptForeignId
 INVARIANT FreshMeansNew
